@@ -85,14 +85,16 @@ def Flags.hang (f : Flags) : Bool := f.rdhup || f.err
 /-- poller's position in the handling of one event of this fd -/
 inductive PS | idle | rd (i : Nat) (fl : Flags) | fin (fl : Flags) deriving DecidableEq, Repr
 
-/-- read task: queued in the executor / parked after a read with its answer / parked after the decrement -/
-inductive TS | none | queued | rd (a : Ans) | dec (v : Nat) deriving DecidableEq, Repr
+/-- read task: queued in the executor / parked after a read with its answer (`h`: the hang-up flag as this round
+    of the task saw it when it started) / parked after the decrement -/
+inductive TS | none | queued | rd (a : Ans) (h : Bool) | dec (v : Nat) deriving DecidableEq, Repr
 
 structure St where
   k : K := {}
   closed : Bool := false
   cerr : CErr := .nil
   re : Nat := 0                                   -- c.readEvents
+  hup : Bool := false                             -- c.hup: a hang-up was handed to the read task
   ps : PS := .idle
   task : TS := .none
   sess : List (List UInt8 × Nat) := []            -- udpConn.conns: key ↦ session id
@@ -211,9 +213,13 @@ def reportOk (g : Cfg) (s : St) (inn out : Bool) : Bool :=
   (!out || g.mode == .et) && (g.mode != .os || s.k.armed)
 
 /-- the poller's dispatch on the event flags (readWriteLoop, EPOLLIN branch) -/
+def setHup (s : St) (b : Bool) : St := if b then { s with hup := true } else s
+
 def dispatch (g : Cfg) (s : St) (fl : Flags) : St :=
   if fl.inn then
-    if g.isAsync then setPs (if g.mode == .os then spawnTask s else gate s) (afterEvent fl)
+    if g.isAsync then
+      -- a hang-up that comes with input is left to the read task: it closes after draining
+      setPs (if g.mode == .os then spawnTask (setHup s fl.hang) else gate (setHup s fl.hang)) .idle
     else setPs s (.rd 0 fl)
   else setPs s (afterEvent fl)
 
@@ -243,19 +249,21 @@ def pstep (g : Cfg) (s : St) : Option St :=
 
 def setTask (s : St) (t : TS) : St := { s with task := t }
 
-/-- the task performs its next read (or finds the conn closed and returns) -/
-def taskRead (g : Cfg) (s : St) : St :=
+/-- the task performs its next read (or finds the conn closed and returns); `h` = the hang-up flag of this round -/
+def taskRead (g : Cfg) (s : St) (h : Bool) : St :=
   if s.closed then setTask s .none
   else
     let r := doRead g s
-    setTask r.2 (.rd r.1)
+    setTask r.2 (.rd r.1 h)
 
 /-- what the task does after `consume`: read again, leave the inner loop (one-shot: re-arm and return;
-    otherwise decrement `readEvents` and return iff it reached 0), or return after an error -/
-def taskNext (g : Cfg) (s : St) : Next → St
-  | .again => taskRead g s
+    otherwise decrement `readEvents` and return iff it reached 0; or, with a hang-up seen at the start of the round,
+    close), or return after an error -/
+def taskNext (g : Cfg) (s : St) (h : Bool) : Next → St
+  | .again => taskRead g s h
   | .brk =>
-    if g.mode == .os then setTask (rearm s) .none
+    if h then setTask (closeHang s) .none          -- the hang-up was there before this round: drained, close
+    else if g.mode == .os then setTask (rearm s) .none
     else if s.re - 1 = 0 then setTask { s with re := 0 } .none
     else setTask { s with re := s.re - 1 } (.dec (s.re - 1))
   | .dead => setTask s .none
@@ -264,11 +272,11 @@ def taskNext (g : Cfg) (s : St) : Next → St
 def tstep (g : Cfg) (s : St) : Option St :=
   match s.task with
   | .none => none
-  | .queued => some (taskRead g s)
-  | .rd a =>
+  | .queued => some (taskRead g s s.hup)
+  | .rd a h =>
     let c := consume g s a
-    some (taskNext g c.2 c.1)
-  | .dec _ => some (taskRead g s)
+    some (taskNext g c.2 h c.1)
+  | .dec _ => some (taskRead g s s.hup)
 
 inductive Act
   | push (b : List UInt8)
